@@ -59,7 +59,7 @@ class JsonBox:
         self.box = []
 
     def _norm(self, x):
-        if isinstance(x, dict):
+        if isinstance(x, dict) or (hasattr(x, "items") and hasattr(x, "keys")):
             return {k: self._norm(v) for k, v in x.items()}
         if isinstance(x, (list, tuple)):
             return [self._norm(v) for v in x]
@@ -81,24 +81,30 @@ class JsonBox:
 JSONBOX = JsonBox()
 
 
+class _JsonModule:
+    """stands in for the `json` (simplejson) module object inside gffutils.helpers: the repository's own
+    _jsonify/_unjsonify code runs, only the library call is boxed"""
+
+    def __init__(self):
+        import simplejson
+        self.JSONDecodeError = simplejson.JSONDecodeError
+
+    def dumps(self, obj, separators=None, sort_keys=False, **kw):
+        if kw:
+            raise TypeError("jsonbox: unsupported dumps() options %r" % sorted(kw))
+        if sort_keys and hasattr(obj, "items"):
+            obj = {k: obj[k] for k in sorted(obj.keys())}
+        return JSONBOX.dumps(obj)
+
+    def loads(self, s, **kw):
+        if kw:
+            raise TypeError("jsonbox: unsupported loads() options %r" % sorted(kw))
+        return JSONBOX.loads(s)
+
+
 def install_jsonbox():
     m = _mods()
-    H = m["helpers"]
-    dict_class = H.dict_class
-
-    def _jsonify(x):
-        if isinstance(x, dict_class):
-            return JSONBOX.dumps(x._d)
-        return JSONBOX.dumps(x)
-
-    def _unjsonify(x, isattributes=False):
-        obj = JSONBOX.loads(x)
-        if isattributes:
-            return dict_class(obj)
-        return obj
-
-    _set(H, "_jsonify", _jsonify)
-    _set(H, "_unjsonify", _unjsonify)
+    _set(m["helpers"], "json", _JsonModule())
 
 
 # ---- parser.quoter without its cache -------------------------------------------------------------
